@@ -3,6 +3,7 @@ import Chess.Model.Search
 import Chess.Model.Uci
 import Chess.Spec.Rules
 import Chess.Spec.Fen
+import Chess.Lemmas.AlphaBeta
 
 /-!
 # Line-protocol driver (`chessdrv`): the model side of the correspondence check and the
@@ -164,6 +165,14 @@ def runOp (ctx : Ctx) (line : String) : Ctx × List String :=
       ({ ctx with table := out.st.tt },
        fmtInfos out.infos ++ [s!"bestmove={match out.found with | some m => S m.uci | none => "none"} polls={polls} tt={out.st.tt.size}"])
     | _ => (ctx, ["badargs"])
+  | "refroot" => withGame fun g =>
+    -- the unpruned reference value of the root and whether the tree meets the theorem's hypotheses
+    match args.map String.toNat? with
+    | [some depth] =>
+      let o := Uci.chessOps
+      let live := Search.rootInRangeB o depth g
+      (ctx, [s!"ref={Search.refRoot o depth g} live={if live then 1 else 0} moves={(o.checked g).length}"])
+    | _ => (ctx, ["badargs"])
   | "budget" =>
     -- budget <wtime|-> <btime|-> <winc|-> <binc|-> <movetime|-> <infinite 0|1> <w|b> <share>
     match args with
@@ -194,6 +203,37 @@ def runOp (ctx : Ctx) (line : String) : Ctx × List String :=
       | some a, some m => (ctx, [S (Spec.render4 (Spec.play a m))])
       | _, _ => (ctx, ["unparsable"])
     | _ => (ctx, ["badargs"])
+  | "spec_line" =>
+    -- spec_line <m1,m2,...|-> <fen…> : index of the first move that is not legal by the rules, or `ok`
+    match args with
+    | ms :: fenParts =>
+      match Spec.fenLoose (" ".intercalate fenParts).toList with
+      | some a =>
+        let moves := if ms == "-" then [] else ms.splitOn ","
+        let rec go (a : Spec.APos) (l : List String) (i : Nat) : String :=
+          match l with
+          | [] => "ok"
+          | u :: rest =>
+            match Spec.UciMove.ofText u.toList with
+            | some m => if Spec.legal a m then go (Spec.play a m) rest (i + 1) else s!"illegal@{i}:{u}"
+            | none => s!"unparsable@{i}:{u}"
+        (ctx, [go a moves 0])
+      | none => (ctx, ["unparsable"])
+    | _ => (ctx, ["badargs"])
+  | "spec_mate1" =>
+    -- the legal moves after which the opponent is checkmated
+    match Spec.fenLoose restL with
+    | some a =>
+      let mates := (Spec.legalList a).filter (fun m =>
+        let b := Spec.play a m
+        (Spec.legalList b).isEmpty && Spec.inCheck b b.side)
+      (ctx, [specMoves mates])
+    | none => (ctx, ["unparsable"])
+  | "spec_status" =>
+    -- number of legal moves and whether the side to move is in check
+    match Spec.fenLoose restL with
+    | some a => (ctx, [s!"{(Spec.legalList a).length} {if Spec.inCheck a a.side then "check" else "quiet"}"])
+    | none => (ctx, ["unparsable"])
   | "spec_render" =>
     match Spec.fenLoose restL with
     | some a => (ctx, [S (Spec.render4 a)])
